@@ -1,0 +1,330 @@
+//go:build verif
+
+package expr
+
+import (
+	"github.com/grindlemire/go-lucene/internal/verifspec"
+)
+
+// Contracts of package expr (properties C10, C13, C01, C12, C06).  Directive
+// comments are woven into an overlay by the verification engine; the Go
+// functions are the executable specification vocabulary.
+
+// ---- vocabulary taken from the property statements ---------------------------------
+
+// LeafOp: operators of single terms.
+func LeafOp(op Operator) bool { return op == Literal || op == Wild || op == Regexp }
+
+// PlainValue: what a term may hold ("plain values" of C10).
+func PlainValue(a any) bool {
+	switch a.(type) {
+	case string, Column, bool, int, int32, int64, uint, uint8, uint16, uint32, uint64, float32, float64:
+		return true
+	}
+	return false
+}
+
+// IsTerm: a single term - a non-nil leaf expression holding a plain value and nothing else.
+func IsTerm(a any) bool {
+	e, ok := a.(*Expression)
+	return ok && e != nil && LeafOp(e.Op) && PlainValue(e.Left)
+}
+
+// IsBoundary: range bounds are single terms.
+func IsBoundary(a any) bool {
+	b, ok := a.(*RangeBoundary)
+	return ok && b != nil && IsTerm(b.Min) && IsTerm(b.Max)
+}
+
+// IsPattern: a wildcard or regexp term.
+func IsPattern(a any) bool {
+	e, ok := a.(*Expression)
+	return ok && e != nil && (e.Op == Wild || e.Op == Regexp)
+}
+
+// IsListExpr: a value-list node.
+func IsListExpr(a any) bool {
+	e, ok := a.(*Expression)
+	return ok && e != nil && e.Op == List
+}
+
+// IsTermList: a list of single terms.
+func IsTermList(a any) bool {
+	l, ok := a.([]*Expression)
+	return ok && verifspec.Forall(0, len(l), func(i int) bool { return IsTerm(l[i]) })
+}
+
+// NodeV: the shape one node must have (statement of C10: field positions hold a
+// single term, range bounds are single terms, unary operators have exactly one
+// operand, pattern matches have a pattern on the right, lists hold plain values).
+func NodeV(e *Expression) bool {
+	switch e.Op {
+	case Equals, Greater, Less, GreaterEq, LessEq:
+		return IsTerm(e.Left)
+	case And, Or:
+		return e.Left != nil && e.Right != nil
+	case Not, Must, MustNot, Boost, Fuzzy:
+		return e.Left != nil && e.Right == nil
+	case Range:
+		return IsTerm(e.Left) && IsBoundary(e.Right)
+	case Literal, Wild, Regexp:
+		return e.Right == nil && PlainValue(e.Left)
+	case Like:
+		return IsTerm(e.Left) && IsPattern(e.Right)
+	case In:
+		return IsTerm(e.Left) && IsListExpr(e.Right)
+	case List:
+		return e.Right == nil && IsTermList(e.Left)
+	}
+	return false
+}
+
+// ShapeV: every node reachable through Left/Right expression links has its shape.
+func ShapeV(a any) bool {
+	e, ok := a.(*Expression)
+	if !ok {
+		return true
+	}
+	return e != nil && NodeV(e) && ShapeV(e.Left) && ShapeV(e.Right)
+}
+
+// WF: the tree contains no typed-nil pointer (what every producer in this
+// repository - parser, constructors, JSON decoder - establishes).
+func WF(a any) bool {
+	if e, ok := a.(*Expression); ok {
+		return e != nil && WF(e.Left) && WF(e.Right)
+	}
+	if l, ok := a.([]*Expression); ok {
+		return verifspec.Forall(0, len(l), func(i int) bool { return l[i] != nil })
+	}
+	if b, ok := a.(*RangeBoundary); ok {
+		return b != nil && WF(b.Min) && WF(b.Max)
+	}
+	return true
+}
+
+// ---- validators: err == nil implies the node shape of the operator -----------------
+
+//@ func validateEquals
+//@   props C10 C13 C06
+//@   requires e == nil || WF(e)
+//@   ensures  err == nil && e != nil ==> e.Op == Equals && IsTerm(e.Left)
+
+//@ func validateCompare
+//@   props C10 C13 C06
+//@   requires e == nil || WF(e)
+//@   ensures  err == nil && e != nil ==> (e.Op == Greater || e.Op == Less || e.Op == GreaterEq || e.Op == LessEq) && IsTerm(e.Left)
+
+//@ func validateAnd
+//@   props C10 C13
+//@   ensures  err == nil && e != nil ==> e.Left != nil && e.Right != nil
+
+//@ func validateOr
+//@   props C10 C13
+//@   ensures  err == nil && e != nil ==> e.Left != nil && e.Right != nil
+
+//@ func validateNot
+//@   props C10 C13
+//@   ensures  err == nil && e != nil ==> e.Left != nil && e.Right == nil
+
+//@ func validateMust
+//@   props C10 C13
+//@   ensures  err == nil && e != nil ==> e.Left != nil && e.Right == nil
+
+//@ func validateMustNot
+//@   props C10 C13
+//@   ensures  err == nil && e != nil ==> e.Left != nil && e.Right == nil
+
+//@ func validateBoost
+//@   props C10 C13
+//@   ensures  err == nil && e != nil ==> e.Left != nil && e.Right == nil
+
+//@ func validateFuzzy
+//@   props C10 C13
+//@   ensures  err == nil && e != nil ==> e.Left != nil && e.Right == nil
+
+//@ func validateRange
+//@   fuel 3
+//@   props C10 C13 C06
+//@   requires e == nil || WF(e)
+//@   ensures[bounds-are-terms] err == nil && e != nil ==> IsTerm(e.Left) && IsBoundary(e.Right)
+
+//@ func validateLiteral
+//@   props C10 C13
+//@   ensures  err == nil && e != nil ==> e.Right == nil && PlainValue(e.Left)
+
+//@ func validateWild
+//@   props C10 C13
+//@   ensures  err == nil && e != nil ==> e.Right == nil && PlainValue(e.Left)
+
+//@ func validateRegexp
+//@   props C10 C13
+//@   ensures  err == nil && e != nil ==> e.Right == nil && PlainValue(e.Left)
+
+//@ func validateLike
+//@   props C10 C13 C06
+//@   requires e == nil || WF(e)
+//@   ensures  err == nil && e != nil ==> IsTerm(e.Left) && IsPattern(e.Right)
+
+//@ func validateIn
+//@   props C10 C13 C06
+//@   requires e == nil || WF(e)
+//@   ensures  err == nil && e != nil ==> IsTerm(e.Left) && IsListExpr(e.Right)
+
+//@ func validateList
+//@   props C10 C13 C06
+//@   requires e == nil || WF(e)
+//@   ensures  err == nil && e != nil ==> e.Right == nil && IsTermList(e.Left)
+
+//@ func isListOfLiteralExprs
+//@   props C10 C13
+//@   requires WF(in)
+//@   ensures  result ==> IsTermList(in)
+//@   loop 0: rangeinv verifspec.Forall(0, idx, func(i int) bool { return IsTerm(e[i]) })
+
+//@ func Validate
+//@   props C10 C13 C01
+//@   structural
+//@   requires WF(in)
+//@   ensures  err == nil ==> ShapeV(in)
+
+// ---- typing of parser-built trees (used for the "%!" clause of C01) ------------------
+
+// ParserValue: the Go kinds the parser puts into leaves.
+func ParserValue(a any) bool {
+	switch a.(type) {
+	case string, Column, int, float64:
+		return true
+	}
+	return false
+}
+
+// ParserLeaf: a leaf as the parser builds it.
+func ParserLeaf(e *Expression) bool {
+	return e != nil && LeafOp(e.Op) && e.Right == nil && ParserValue(e.Left)
+}
+
+// ShapeP: the typing of every tree the shift-reduce parser can build.
+func ShapeP(a any) bool {
+	e, ok := a.(*Expression)
+	if !ok || e == nil {
+		return false
+	}
+	switch e.Op {
+	case Literal, Wild, Regexp:
+		return e.Right == nil && ParserValue(e.Left)
+	case And, Or, Equals, Greater, Less, GreaterEq, LessEq:
+		return ShapeP(e.Left) && ShapeP(e.Right)
+	case Not, Must, MustNot, Boost, Fuzzy:
+		return ShapeP(e.Left) && e.Right == nil
+	case Like:
+		return ShapeP(e.Left) && IsPattern(e.Right) && ShapeP(e.Right)
+	case In:
+		return ShapeP(e.Left) && IsListExpr(e.Right) && ShapeP(e.Right)
+	case List:
+		l, isList := e.Left.([]*Expression)
+		return isList && e.Right == nil && len(l) >= 2 &&
+			verifspec.Forall(0, len(l), func(i int) bool { return ParserLeaf(l[i]) && l[i].Op == Literal })
+	case Range:
+		b, isB := e.Right.(*RangeBoundary)
+		return ShapeP(e.Left) && isB && b != nil && ShapeP(b.Min) && ShapeP(b.Max)
+	}
+	return false
+}
+
+// ---- printers: validation guards rendering (C13), no "%!" on parser trees (C01) -----------
+
+// NodePrintable: what the printers assert about the node they print.  (Package
+// fmt recovers panics of nested String/GoString calls, so only the top node can
+// make String() itself panic; nested calls matter for the "%!" clause only and
+// are obligations under the fmtwhen hypothesis.)
+func NodePrintable(e *Expression) bool {
+	if e.Op == Range {
+		b, ok := e.Right.(*RangeBoundary)
+		return ok && b != nil
+	}
+	if e.Op == List {
+		l, ok := e.Left.([]*Expression)
+		return ok && verifspec.Forall(0, len(l), func(i int) bool { return l[i] != nil })
+	}
+	return true
+}
+
+// lemmaValidatedPrintable: a node that passed validation can be printed.
+//
+//@ func lemmaValidatedPrintable
+//@   lemma
+//@   props C13 C01
+//@   requires e != nil && ShapeV(e)
+//@   ensures  NodePrintable(e)
+func lemmaValidatedPrintable(e *Expression) {}
+
+// lemmaParsedPrintable: so can every node of a parser-built tree.
+//
+//@ func lemmaParsedPrintable
+//@   lemma
+//@   props C01
+//@   requires ShapeP(e)
+//@   ensures  e != nil && NodePrintable(e)
+func lemmaParsedPrintable(e *Expression) {}
+
+//@ func (Expression).String
+//@   props C01 C13
+//@   requires NodePrintable(&e)
+//@   fmtwhen  ShapeP(&e)
+
+//@ func (Expression).GoString
+//@   props C01 C13
+//@   requires NodePrintable(&e)
+//@   fmtwhen  ShapeP(&e)
+
+//@ func renderEquals
+//@   props C01 C13
+//@   requires e != nil && e.Op == Equals
+//@   fmtwhen  ShapeP(e)
+
+//@ func renderBasic
+//@   props C01 C13
+//@   requires e != nil && (e.Op == And || e.Op == Or || e.Op == Greater || e.Op == Less || e.Op == GreaterEq || e.Op == LessEq || e.Op == Like || e.Op == In)
+//@   fmtwhen  ShapeP(e)
+
+//@ func renderWrapper
+//@   props C01 C13
+//@   requires e != nil && e.Op == Not
+//@   fmtwhen  ShapeP(e)
+
+//@ func renderMustNot
+//@   props C01 C13
+//@   requires e != nil && e.Op == MustNot
+//@   fmtwhen  ShapeP(e)
+
+//@ func renderMust
+//@   props C01 C13
+//@   requires e != nil && e.Op == Must
+//@   fmtwhen  ShapeP(e)
+
+//@ func renderBoost
+//@   props C01 C13
+//@   requires e != nil && e.Op == Boost
+//@   fmtwhen  ShapeP(e)
+
+//@ func renderFuzzy
+//@   props C01 C13
+//@   requires e != nil && e.Op == Fuzzy
+//@   fmtwhen  ShapeP(e)
+
+//@ func renderRange
+//@   props C01 C13
+//@   requires e != nil && e.Op == Range && NodePrintable(e)
+//@   fmtwhen  ShapeP(e)
+
+//@ func renderList
+//@   props C01 C13
+//@   requires e != nil && e.Op == List && NodePrintable(e)
+//@   fmtwhen  ShapeP(e)
+//@   loop 0: rangeinv true
+
+//@ func renderLiteral
+//@   props C01 C13
+//@   requires e != nil && LeafOp(e.Op)
+//@   fmtwhen  ShapeP(e)
